@@ -885,7 +885,7 @@ theorem Idle_initProject (logInfo : Bool) (s : St) (t : Nat) (ht : t < m.nT)
     have h0 : (pert m 0 { initLive m logInfo s.live with cpl := 0 }).tstate t = .none := by
       rw [pert_tstate]
       show (initLive m logInfo s.live).tstate t = .none
-      rw [initLive_tstate, if_pos ht]
+      rw [initLive_tstate]
       cases logInfo
       · simp
       · have := hp rfl
